@@ -334,6 +334,8 @@ class Model:
             return op == "Eq"
         if isinstance(a, (list, dict, set)) and isinstance(b, (list, dict, set)) and op in ("Eq", "NotEq") and (not a) != (not b):
             return op == "NotEq"
+        if op in ("Is", "IsNot") and (a is None or b is None) and (isinstance(a, Ser) or isinstance(b, Ser)):
+            return op == "IsNot"          # identity: a Series object is never None (== None would be element-wise)
         if (a is None or b is None) and not isinstance(a, Ser) and not isinstance(b, Ser):
             other = b if a is None else a
             if other is None:
